@@ -444,7 +444,8 @@ LEVEL_TEXT = ("Coq proof + correspondence. Unbounded theorems (all graphs, all L
               "mag_adjacency_bounded_4 (adjacent iff no set of other observed nodes d-separates given Z u S) and "
               "mag_independence_bounded_4 (m-separation given Z in the MAG iff d-separation given Z u S in the DAG). The same two clauses "
               "for n = 5 (sampled L,S) and random n <= 6 are checked only by the extracted brute-force oracle in the tie (testing). The "
-              "implementation is tied to the model by correspondence on the cases of `rule`, incl. six non-default label families.")
+              "implementation is tied to the model by correspondence on the cases of `rule`, incl. six non-default label families."
+              " Tie (T) for the local predicate: translator/predicates.py re-translates _is_collider with _directed_sub_graph_parents / _bidirected_sub_graph_neighbors inlined into Gen/Gen_Preds.v on every run; repo_pred_is_collider proves by complete case analysis (64 x 64 pair states) that it equals the node-level collider test ncoll / into of node_level_exact and that nok is a case distinction on it; 4520 cells are compared with the real functions on ADMG, PAG and CPDAG objects each run (replayable).")
 LEVEL_NOTE = ("The full Richardson-Spirtes/Zhang marginalisation theorem (Spec.mag_full_stmt) is stated but proved only to n = 4; n = 5 in the "
               "kernel is out of reach (about 6 CPU-hours of vm_compute). Bounded theorems quantify over arbitrary edge lists E and node "
               "lists L0,S0 through their canonical listing on nodes 0..n-1 (dag_of, L_of, S_of). The model is the repaired search "
